@@ -1,5 +1,6 @@
 import Usid.Generated.JobWindow
 import Usid.Proofs.Process
+import Usid.Proofs.Sync
 /-! C14 — work is partitioned across ranks without gaps or overlap.
     `assign_job_indices` / `read_window` are GENERATED from process.py on every run. -/
 namespace Usid.C14
@@ -97,5 +98,31 @@ theorem socket_master (names : List String) (r : Nat) (hr : r < names.length) :
 
 example : rankStart 3 5 4 = 0 ∧ rankEnd 3 5 4 = 3 ∧ rankEnd 3 5 0 = 0 := by decide
 example : socketMasters ["a", "b", "a", "c", "b"] = [0, 1, 0, 3, 1] := by decide
+
+/-! ### synchronisation: for EVERY interleaving of the ranks -/
+open Usid.Sync in
+/-- **Every rank derives its range from the same completion status - under every schedule.**  `p` is the
+    synchronisation skeleton of `compute()` (extracted from the source on every run: the order of `assign`,
+    `barrier` and `mark` instructions, loops unrolled any number of times).  If it is `Safe` - a barrier after
+    the one `assign`, no completion mark before that barrier - then for ANY number of ranks and ANY schedule
+    (any interleaving that respects the barriers), a rank that has derived its range had seen no completion
+    mark of anybody when it did so: all ranks partition the SAME pending list (to which `ranges_partition`
+    applies). -/
+theorem ranks_see_initial_status (p : Prog) (h : Safe p = true) (n : Nat) (sched : List Nat) (r : Nat) :
+    (run p n init sched).seen r = none ∨ (run p n init sched).seen r = some 0 := by
+  obtain ⟨i, j, F⟩ := safe_facts p h
+  exact (inv_run p n i j F sched init (inv_init n j)).seen0 r
+
+open Usid.Sync in
+/-- the skeleton of the present `compute()` is safe ... -/
+example : Safe [.other, .other, .assign, .barrier, .other, .barrier, .other, .other, .mark, .other, .barrier] = true := by
+  decide
+
+open Usid.Sync in
+/-- ... and the hypothesis is needed: with the barrier BEFORE the assignment (the seeded change
+    C14-barriers-rearranged) a slow rank derives its range after a fast one has marked a batch -/
+example : Safe [.barrier, .assign, .other, .mark, .barrier] = false ∧
+    (run [.barrier, .assign, .other, .mark, .barrier] 2 init [0, 1, 0, 0, 0, 1]).seen 1 = some 1 := by
+  decide
 
 end Usid.C14
